@@ -1,0 +1,15 @@
+//go:build verif
+
+package ftdc
+
+import "io"
+
+// VerifWriterCollectorInner returns the collector behind the io.WriteCloser
+// built by NewWriterCollector (nil for any other value), so that the
+// verification harness can observe Info/Resolve of that entry point.
+func VerifWriterCollectorInner(w io.WriteCloser) Collector {
+	if wc, ok := w.(*writerCollector); ok {
+		return wc.collector
+	}
+	return nil
+}
